@@ -103,6 +103,10 @@ fn stream_resolve(rep: &mut Report, drv: &mut Driver, rng: &mut Rng, n: usize) -
         let sh = rng.chance(2, 3);
         let (mut el, desc) = spell(rng, shape, &b, px, py, sh);
         let (_dx, _dy) = with_delta(rng, &mut el);
+        // rxy on any shape (corner radii of a rect; on a circle or line it is expanded and then unused),
+        // xy-loc next to a spelling without `xy`
+        if el.get("rxy").is_none() && el.get("rx").is_none() && el.get("r").is_none() && rng.chance(1, 5) { el.push("rxy", *rng.pick(&["1", "1 2", "1.5,2"])); }
+        if el.get("xy").is_none() && rng.chance(1, 5) { el.push("xy-loc", *rng.pick(&["c", "br", "t", "zz"])); }
         if rng.chance(1, 3) {
             el.push("id", "e1");
         }
@@ -160,6 +164,7 @@ fn oracle_docs(rep: &mut Report, rng: &mut Rng, n: usize) {
         let b = gen_box(rng, shape == "circle");
         let (dx, dy) = if rng.chance(1, 4) { (rng.range(-20, 20), rng.range(-20, 20)) } else { (0, 0) };
         let mut els = vec![];
+        let corner: Option<(i64, i64)> = if shape == "rect" && rng.chance(1, 3) { let a = 1 + rng.range(0, 4); Some((a, if rng.chance(1, 2) { a } else { 1 + rng.range(0, 4) })) } else { None };
         for k in 0..6 {
             let px = *rng.pick(&PAIRS);
             let py = *rng.pick(&PAIRS);
@@ -172,6 +177,14 @@ fn oracle_docs(rep: &mut Report, rng: &mut Rng, n: usize) {
                     el.push("dy", &half(dy));
                 }
             }
+            // xy-loc says which point a plain `xy` names; next to other spellings it says nothing and must
+            // neither change the geometry nor stay behind
+            if el.get("xy").is_none() && rng.chance(1, 4) { el.push("xy-loc", *rng.pick(&["c", "br", "t"])); }
+            // the corner radii of a rect, as shorthand or as the longhand pair
+            if let Some((a, b2)) = corner {
+                if k % 2 == 0 { el.push("rxy", &if a == b2 && rng.chance(1, 2) { half(a) } else { format!("{}{}{}", half(a), rng.pick(&[" ", ",", ", "]), half(b2)) }); }
+                else { el.push("rx", &half(a)); el.push("ry", &half(b2)); }
+            }
             el.push("id", &format!("s{k}"));
             els.push(el);
         }
@@ -179,7 +192,8 @@ fn oracle_docs(rep: &mut Report, rng: &mut Rng, n: usize) {
         let distinct = els.iter().map(|e| { let mut a = e.attrs.clone(); a.retain(|(k, _)| k != "id"); a.sort(); format!("{a:?}") }).collect::<std::collections::HashSet<_>>().len();
         st.case(&doc, distinct > 1, || json!({"document": doc}));
         st.tally(&format!("shape={shape}"));
-        let expected = expected_native(shape, &b, dx, dy);
+        let mut expected = expected_native(shape, &b, dx, dy);
+        if let Some((a, b2)) = corner { expected.push(("rx".into(), half(a))); expected.push(("ry".into(), half(b2))); }
         let fail = |rep: &mut Report, what: String, sig: &str| {
             rep.violation(Violation {
                 kind: "oracle",
